@@ -24,6 +24,7 @@ Open Scope N_scope.
 Record ccase := {
   c_graph : graph;
   c_sched : list batch;
+  c_subs : list (graph * list batch);   (* the runs of the nested graphs, in order of their start *)
   c_copies : list Z;          (* observed, sorted ascending *)
   c_resolve_closes : nat;     (* observed *)
   c_update_closes : nat;
@@ -31,15 +32,21 @@ Record ccase := {
   c_skip_closes : nat;
   c_merges : list nat;        (* observed, sorted *)
   c_fired : list key;         (* observed, sorted *)
+  c_handlers : nat;           (* callback handlers passed with WithCallbacks *)
+  c_cb_sides : list nat;      (* for every lambda execution: how many sides of its own paradigm are streams (0..2) *)
+  c_cb_copies : list Z;       (* observed: sizes of the Copy calls of callbacks.OnWithStreamHandle *)
 }.
 
 Definition mkc (w c : list key) (bs : list bdecl) : call := {| c_write_to := w; c_controls := c; c_branches := bs |}.
 Definition mkbd (nodata : bool) (ends : list key) : bdecl := {| bd_nodata := nodata; bd_ends := ends |}.
-Definition mkR (dag eager : bool) (calls : list (key * call)) (sched : list batch)
-               (cp : list Z) (rc uc cc sc : nat) (mg : list nat) (fired : list key) : ccase :=
-  {| c_graph := {| g_dag := dag; g_eager := eager; g_calls := calls |}; c_sched := sched;
+Definition mkSub (dag : bool) (calls : list (key * call)) (sched : list batch) : graph * list batch :=
+  ({| g_dag := dag; g_eager := false; g_calls := calls |}, sched).
+Definition mkR (dag eager : bool) (calls : list (key * call)) (sched : list batch) (subs : list (graph * list batch))
+               (cp : list Z) (rc uc cc sc : nat) (mg : list nat) (fired : list key)
+               (handlers : nat) (sides : list nat) (cbc : list Z) : ccase :=
+  {| c_graph := {| g_dag := dag; g_eager := eager; g_calls := calls |}; c_sched := sched; c_subs := subs;
      c_copies := cp; c_resolve_closes := rc; c_update_closes := uc; c_chan_closes := cc; c_skip_closes := sc;
-     c_merges := mg; c_fired := fired |}.
+     c_merges := mg; c_fired := fired; c_handlers := handlers; c_cb_sides := sides; c_cb_copies := cbc |}.
 
 Fixpoint zlist_eqb (a b : list Z) : bool :=
   match a, b with
@@ -76,8 +83,10 @@ Definition predict (ts : list task) : res prediction :=
         p_update_closes := fold_right Nat.add 0%nat (map a_update_closes accts);
         p_balanced := forallb balanced accts |}.
 
+Definition all_runs (c : ccase) : list (graph * list batch) := (c_graph c, c_sched c) :: c_subs c.
+
 Definition bad_tasks (c : ccase) : bool :=
-  match (do ts <- tasks_of (c_graph c) (c_sched c); predict ts) with
+  match (do tss <- res_mapM (fun gs => tasks_of (fst gs) (snd gs)) (all_runs c); predict (List.concat tss)) with
   | Ok p => negb (zlist_eqb (p_copies p) (c_copies c)
                   && Nat.eqb (p_resolve_closes p) (c_resolve_closes c)
                   && Nat.eqb (p_update_closes p) (c_update_closes c)
@@ -85,28 +94,54 @@ Definition bad_tasks (c : ccase) : bool :=
   | _ => true
   end.
 
-(* ---- (b) the run *)
-Definition bad_run (c : ccase) : bool :=
-  let g := c_graph c in
-  match run g (c_sched c) with
+(* ---- (b) the runs: the top-level run and the run of every nested graph execution *)
+Record rpred := {
+  q_copies : list Z; q_resolve : nat; q_update : nat; q_chan : nat; q_skip : nat; q_merges : list nat;
+  q_fired : list key;
+  q_ok : bool;   (* the hypotheses and the conclusion of the run theorems hold on this run *)
+}.
+
+Definition predict_run (g : graph) (sched : list batch) : res rpred :=
+  match run g sched with
   | Ok (Done out dropped st) =>
       let l := rs_log st in
-      negb (zlist_eqb (sort_by Z.ltb (s_log (rs_store st))) (c_copies c)
-            && Nat.eqb (l_resolve_closes l) (c_resolve_closes c)
-            && Nat.eqb (l_update_closes l) (c_update_closes c)
-            && Nat.eqb (l_chan_closes l) (c_chan_closes c)
-            && Nat.eqb (l_skip_closes l) (c_skip_closes c)
-            && natlist_eqb (sort_by Nat.ltb (l_merges l)) (c_merges c)
-            && nlist_eqb (sort_by N.ltb (filter (fun k => negb (N.eqb k kEND)) (l_fired l))) (c_fired c)
-            (* the hypothesis and the conclusion of the run theorem on this run *)
-            && match dropped with [] => true | _ => false end
-            && nlist_eqb (rs_pending st) [kEND]
-            && (negb (g_dag g) || all_finished g st)
-            && nlist_eqb (s_open (rs_store st)) [out])
-  | _ => true
+      Ok {| q_copies := s_log (rs_store st); q_resolve := l_resolve_closes l; q_update := l_update_closes l;
+            q_chan := l_chan_closes l; q_skip := l_skip_closes l; q_merges := l_merges l;
+            q_fired := filter (fun k => negb (N.eqb k kEND)) (l_fired l);
+            q_ok := nodup_keys (all_keys g) && negb (memb kEND (all_keys g)) && (negb (g_dag g) || covered g)
+                    && match dropped with [] => true | _ => false end
+                    && nlist_eqb (rs_pending st) [kEND]
+                    && (negb (g_dag g) || all_finished g st)
+                    && nlist_eqb (s_open (rs_store st)) [out] |}
+  | Ok (Running _) => Err E_BAD_SCHEDULE
+  | Err e => Err e
+  | Panic => Panic
   end.
 
-Definition bad (c : ccase) : bool := bad_tasks c || bad_run c.
+Definition sumn (f : rpred -> nat) (l : list rpred) : nat := fold_right Nat.add 0%nat (map f l).
+
+Definition bad_run (c : ccase) : bool :=
+  match predict_run (c_graph c) (c_sched c), res_mapM (fun gs => predict_run (fst gs) (snd gs)) (c_subs c) with
+  | Ok top, Ok subs =>
+      let all := top :: subs in
+      negb (zlist_eqb (sort_by Z.ltb (flat_map q_copies all)) (c_copies c)
+            && Nat.eqb (sumn q_resolve all) (c_resolve_closes c)
+            && Nat.eqb (sumn q_update all) (c_update_closes c)
+            && Nat.eqb (sumn q_chan all) (c_chan_closes c)
+            && Nat.eqb (sumn q_skip all) (c_skip_closes c)
+            && natlist_eqb (sort_by Nat.ltb (flat_map q_merges all)) (c_merges c)
+            && nlist_eqb (sort_by N.ltb (q_fired top)) (c_fired c)
+            && forallb q_ok all)
+  | _, _ => true
+  end.
+
+(* ---- (c) callback copies: every graph run (top level and nested) has two streaming callback
+   sites (graph start / graph end), every lambda execution one per streaming side of its paradigm *)
+Definition bad_callbacks (c : ccase) : bool :=
+  let sites := (2 * (1 + List.length (c_subs c)) + fold_right Nat.add 0%nat (c_cb_sides c))%nat in
+  negb (zlist_eqb (callback_copies (c_handlers c) sites) (c_cb_copies c)).
+
+Definition bad (c : ccase) : bool := bad_tasks c || bad_run c || bad_callbacks c.
 Definition mismatches (cs : list ccase) : list nat := mismatches_from bad 0 cs.
 
 (* for debugging a replay: what the run model computed *)
